@@ -90,6 +90,15 @@ Init ==
                  LET operand == IF a = 1 THEN Lit(I(5)) ELSE Var(<<"n2">>) IN
                  /\ Positions[pos] # "operand"          \* (the grammar admits a sign only at the start of an expression)
                  /\ prog = At(Positions[pos], [t |-> "neg", a |-> Filt(operand, chain)], chain)
+       [] Family = "nestparam" ->
+            \* the parameter of a later filter of a chain contains a chain of its own (in a subscript); with and without an earlier
+            \* filtered expression in the same template: every chain is the one that was written
+            \E pos \in 1..Len(Positions), f1 \in 1..Len(FSeq), nest \in 1..2, hist \in BOOLEAN :
+               LET inner == IF nest = 1 THEN Filt(Var(<<"p">>), <<FC("cut", Lit(S(<<"y">>))), FC("default", Lit(S(<<"k">>)))>>)
+                                        ELSE Filt(Lit(S(<<"k">>)), <<FC("lower", NoArg)>>) IN
+               LET chain == <<FSeq[f1], FC("add", [t |-> "sub", e |-> Var(<<"mp">>), i |-> inner])>> IN
+               prog = (IF hist THEN <<Out(Filt(Var(<<"p">>), <<FC("upper", NoArg)>>)), T(<<"/">>)>> ELSE <<>>)
+                      \o At(Positions[pos], Filt(Var(<<"v">>), chain), chain)
        [] Family = "rec" ->
             \* the filter tag inside a macro that calls itself from the tag's body: every activation filters its own body
             \E f \in {"upper", "lower", "capfirst", "length"}, depth \in 0..3, twice \in BOOLEAN :
@@ -118,7 +127,7 @@ Init ==
                \/ prog = <<[t |-> "filter", chain |-> <<FC(f1, NoArg), FC(f2, SymArgs[a])>>, body |-> <<T(<<"a", " ", "b">>), Out(Var(<<"n2">>))>>]>>
 Next == go = FALSE /\ go' = TRUE /\ UNCHANGED prog
 
-Res == IF Family \in {"pos", "arrparam", "neg", "rec"} THEN RenderF(prog, Ctx, Files) ELSE RenderSym(prog, Ctx, Files)
+Res == IF Family \in {"pos", "arrparam", "neg", "rec", "nestparam"} THEN RenderF(prog, Ctx, Files) ELSE RenderSym(prog, Ctx, Files)
 Balanced == go => ScopesBalanced(Res)
 \* on the model: the filter events of one chain appear in written order
 EmitVec == go => PrintT(ToJson([m |-> "C19", prog |-> prog, ctx |-> Ctx, files |-> Files, tags |-> <<Family>>,
